@@ -17,12 +17,13 @@ pub struct EvaluationError {
     pub message: String,
 }
 
-pub type FunctionMap = HashMap<String, Arc<Mutex<dyn FunctionCallback + Send + Sync>>>;
+pub type FunctionMap = HashMap<String, Arc<dyn FunctionCallback + Send + Sync>>;
 
 pub trait FunctionCallback {
     fn expected_args(&self) -> usize;
+    /// A function only reads what it needs, so that an argument may call the same function again (`ram(ram($fb))`)
     fn apply(
-        &mut self,
+        &self,
         ctx: &Evaluator,
         args: &[&Located<Expression>],
     ) -> EvaluationResult<Option<SymbolData>>;
@@ -248,7 +249,6 @@ impl<'a> Evaluator<'a> {
             ExpressionFactor::FunctionCall { name, args, .. } => {
                 match self.functions.get(name.data.as_str()) {
                     Some(callback) => {
-                        let mut callback = callback.lock().unwrap();
                         self.expect_args(name.span, args.len(), callback.expected_args())?;
                         callback.apply(self, &args.iter().map(|(expr, _)| expr).collect_vec())
                     }
